@@ -9,8 +9,12 @@
 package c16
 
 import (
+	"encoding/json"
 	"fmt"
 	"math"
+	"os"
+	"path/filepath"
+	"sort"
 	"strings"
 	"time"
 
@@ -218,7 +222,7 @@ func Run(tier string, seed uint64, modelPath, repo string, out *res.Result) erro
 		n = 300
 	}
 	out.Rule = "random trees of <=9 block boxes (depth<=4) x position{static,relative,absolute} x z-index{auto,-2,-1,0,1,1,2} x float x {opacity,transform,overflow}, unique background/border colours and texts; " +
-		"the order of fills and DrawText calls is compared with the Lean model of stacking.go run on the implementation's laid-out tree (corr) and with the Lean Appendix E spec (judge); " +
+		"the order of fills and DrawText calls is compared with the Lean model of stacking.go run on the implementation's laid-out tree (corr) and with the Lean Appendix E spec (judge); corpus cases first; " +
 		"non-trivial = at least one box makes a stacking context, is positioned or floats; distinct by document text"
 	render.Quiet()
 	fonts, err := render.NewFonts(repo)
@@ -226,6 +230,23 @@ func Run(tier string, seed uint64, modelPath, repo string, out *res.Result) erro
 		return err
 	}
 	crashes := map[string]int{}
+	// corpus: minimised past failures, replayed first
+	if exe, err := os.Executable(); err == nil {
+		files, _ := filepath.Glob(filepath.Join(filepath.Dir(filepath.Dir(exe)), "corpus", "C16", "*.json"))
+		sort.Strings(files)
+		for _, fn := range files {
+			var c struct{ Name, What, HTML string }
+			data, err := os.ReadFile(fn)
+			if err != nil || json.Unmarshal(data, &c) != nil || c.HTML == "" {
+				return fmt.Errorf("corpus file %s: unreadable or empty", fn)
+			}
+			if err := one(m, c.HTML, 0, fonts, out, crashes, &node{}); err != nil {
+				return err
+			}
+			out.Hit("corpus")
+		}
+		out.Notes = append(out.Notes, fmt.Sprintf("corpus: %d minimised past failures replayed first", len(files)))
+	}
 	for i := 0; i < n; i++ {
 		cr := r.Sub()
 		caseSeed := cr.Seed()
@@ -304,24 +325,16 @@ func one(m *mp.Model, src string, caseSeed uint64, fonts text.FontConfiguration,
 	impl := strings.Join(implOrder(doc.Rec), " ")
 	model := strings.Join(filterEvs(ans.Xs[1]), " ")
 	spec := strings.Join(filterEvs(ans.Xs[2]), " ")
-	specQ := strings.Join(filterEvs(ans.Xs[3]), " ")
-	// a disagreement with Appendix E is attributed to the z-index reading only if reading z-index the way
-	// stacking.go does (also on non-positioned boxes) makes the whole order agree
 	key := ""
-	if impl != spec && impl == specQ && f["z-on-static-context"] {
-		key = "z-index-on-non-positioned-context"
-	}
-	if model != specQ {
-		out.Add(res.Finding{Kind: "corr", Op: "corr:model-vs-spec", Input: src, Impl: model, Model: specQ, Reason: "the model of stacking.go and the Appendix E spec (with stacking.go's z-index reading) differ on the tree " + tree.String(), Seed: caseSeed})
+	if model != spec {
+		// cannot happen if the driver runs the proved definitions (WR.Props.C16.paint_order_respects_E)
+		out.Add(res.Finding{Kind: "corr", Op: "corr:model-vs-spec", Input: src, Impl: model, Model: spec, Reason: "the model of stacking.go and the Appendix E spec differ on the tree " + tree.String(), Seed: caseSeed})
 	}
 	if impl != spec {
 		out.Add(res.Finding{Kind: "judge", Op: "judge:paint-order", Input: src, Impl: impl, Model: spec, Reason: "the order of paints differs from CSS 2.1 Appendix E; laid-out tree: " + tree.String(), Key: key, Seed: caseSeed})
 	}
 	if impl != model {
 		out.Add(res.Finding{Kind: "corr", Op: "corr:paint-order", Input: src, Impl: impl, Model: model, Reason: "differs from the model of stacking.go; laid-out tree: " + tree.String(), Key: key, Seed: caseSeed})
-	}
-	if model != spec {
-		out.Hit("model!=spec")
 	}
 	return nil
 }
